@@ -274,6 +274,10 @@ pub fn g_par_dec<T: BlockCipherDecrypt>(c: &T) -> usize {
     p
 }
 
+/// Which backend entry points the direct calls use: 0 = `*_par_blocks` + `*_tail_blocks` (out of place), 1 = their
+/// `_inplace` forms, 2 = `*_block` per block, 3 = `*_block_inplace` per block.
+pub static DIRECT_MODE: core::sync::atomic::AtomicUsize = core::sync::atomic::AtomicUsize::new(0);
+
 /// Direct backend call: `*_par_blocks` on each full group of `par` blocks and `*_tail_blocks` on the
 /// remaining (< par) blocks, buffer-to-buffer, bypassing the `cipher` crate's chunking loop.
 struct DirectE<'a, BS> {
@@ -289,17 +293,46 @@ impl<BS: cipher::crypto_common::BlockSizes> BlockCipherEncClosure for DirectE<'_
         let par = <B as ParBlocksSizeUser>::ParBlocksSize::USIZE;
         let (ib, _) = Array::<u8, BS>::slice_as_chunks(self.inp);
         let mut ob: Vec<Array<u8, BS>> = vec![Array::<u8, BS>::default(); ib.len()];
-        let mut done = 0;
-        while ib.len() - done >= par {
-            let pin = Array::<Array<u8, BS>, B::ParBlocksSize>::from_slice(&ib[done..done + par]);
-            let mut pout = Array::<Array<u8, BS>, B::ParBlocksSize>::default();
-            backend.encrypt_par_blocks(InOut::from((pin, &mut pout)));
-            ob[done..done + par].clone_from_slice(&pout);
-            done += par;
-        }
-        let (_, tail_out) = ob.split_at_mut(done);
-        if let Ok(buf) = InOutBuf::new(&ib[done..], tail_out) {
-            backend.encrypt_tail_blocks(buf);
+        let mode = DIRECT_MODE.load(core::sync::atomic::Ordering::Relaxed);
+        match mode {
+            // every block through the single-block entry point of the backend, out of place / in place
+            2 => {
+                for (i, o) in ib.iter().zip(ob.iter_mut()) {
+                    backend.encrypt_block(InOut::from((i, o)));
+                }
+            }
+            3 => {
+                ob.clone_from_slice(ib);
+                for o in ob.iter_mut() {
+                    backend.encrypt_block_inplace(o);
+                }
+            }
+            // the in-place forms of the parallel and the tail entry points
+            1 => {
+                ob.clone_from_slice(ib);
+                let mut done = 0;
+                while ib.len() - done >= par {
+                    let mut pb = Array::<Array<u8, BS>, B::ParBlocksSize>::from_slice(&ob[done..done + par]).clone();
+                    backend.encrypt_par_blocks_inplace(&mut pb);
+                    ob[done..done + par].clone_from_slice(&pb);
+                    done += par;
+                }
+                backend.encrypt_tail_blocks_inplace(&mut ob[done..]);
+            }
+            _ => {
+                let mut done = 0;
+                while ib.len() - done >= par {
+                    let pin = Array::<Array<u8, BS>, B::ParBlocksSize>::from_slice(&ib[done..done + par]);
+                    let mut pout = Array::<Array<u8, BS>, B::ParBlocksSize>::default();
+                    backend.encrypt_par_blocks(InOut::from((pin, &mut pout)));
+                    ob[done..done + par].clone_from_slice(&pout);
+                    done += par;
+                }
+                let (_, tail_out) = ob.split_at_mut(done);
+                if let Ok(buf) = InOutBuf::new(&ib[done..], tail_out) {
+                    backend.encrypt_tail_blocks(buf);
+                }
+            }
         }
         for b in ob {
             self.out.extend_from_slice(&b);
@@ -319,17 +352,46 @@ impl<BS: cipher::crypto_common::BlockSizes> BlockCipherDecClosure for DirectD<'_
         let par = <B as ParBlocksSizeUser>::ParBlocksSize::USIZE;
         let (ib, _) = Array::<u8, BS>::slice_as_chunks(self.inp);
         let mut ob: Vec<Array<u8, BS>> = vec![Array::<u8, BS>::default(); ib.len()];
-        let mut done = 0;
-        while ib.len() - done >= par {
-            let pin = Array::<Array<u8, BS>, B::ParBlocksSize>::from_slice(&ib[done..done + par]);
-            let mut pout = Array::<Array<u8, BS>, B::ParBlocksSize>::default();
-            backend.decrypt_par_blocks(InOut::from((pin, &mut pout)));
-            ob[done..done + par].clone_from_slice(&pout);
-            done += par;
-        }
-        let (_, tail_out) = ob.split_at_mut(done);
-        if let Ok(buf) = InOutBuf::new(&ib[done..], tail_out) {
-            backend.decrypt_tail_blocks(buf);
+        let mode = DIRECT_MODE.load(core::sync::atomic::Ordering::Relaxed);
+        match mode {
+            // every block through the single-block entry point of the backend, out of place / in place
+            2 => {
+                for (i, o) in ib.iter().zip(ob.iter_mut()) {
+                    backend.decrypt_block(InOut::from((i, o)));
+                }
+            }
+            3 => {
+                ob.clone_from_slice(ib);
+                for o in ob.iter_mut() {
+                    backend.decrypt_block_inplace(o);
+                }
+            }
+            // the in-place forms of the parallel and the tail entry points
+            1 => {
+                ob.clone_from_slice(ib);
+                let mut done = 0;
+                while ib.len() - done >= par {
+                    let mut pb = Array::<Array<u8, BS>, B::ParBlocksSize>::from_slice(&ob[done..done + par]).clone();
+                    backend.decrypt_par_blocks_inplace(&mut pb);
+                    ob[done..done + par].clone_from_slice(&pb);
+                    done += par;
+                }
+                backend.decrypt_tail_blocks_inplace(&mut ob[done..]);
+            }
+            _ => {
+                let mut done = 0;
+                while ib.len() - done >= par {
+                    let pin = Array::<Array<u8, BS>, B::ParBlocksSize>::from_slice(&ib[done..done + par]);
+                    let mut pout = Array::<Array<u8, BS>, B::ParBlocksSize>::default();
+                    backend.decrypt_par_blocks(InOut::from((pin, &mut pout)));
+                    ob[done..done + par].clone_from_slice(&pout);
+                    done += par;
+                }
+                let (_, tail_out) = ob.split_at_mut(done);
+                if let Ok(buf) = InOutBuf::new(&ib[done..], tail_out) {
+                    backend.decrypt_tail_blocks(buf);
+                }
+            }
         }
         for b in ob {
             self.out.extend_from_slice(&b);
@@ -381,6 +443,24 @@ pub trait ViaNoCloneT<T> {
     }
 }
 impl<T> ViaNoCloneT<T> for &Probe<'_, T> {}
+
+/// `dst.clone_from(src)` where the type is `Clone` (a hand-written `clone_from` is a separate code path from `clone`)
+pub struct ProbeMut<'a, T>(pub &'a mut T, pub &'a T);
+pub trait ViaCloneFrom {
+    fn p_clone_from(&mut self) -> bool;
+}
+impl<T: Clone> ViaCloneFrom for ProbeMut<'_, T> {
+    fn p_clone_from(&mut self) -> bool {
+        self.0.clone_from(self.1);
+        true
+    }
+}
+pub trait ViaNoCloneFrom {
+    fn p_clone_from(&mut self) -> bool {
+        false
+    }
+}
+impl<T> ViaNoCloneFrom for &mut ProbeMut<'_, T> {}
 
 pub trait ViaDebug {
     fn p_debug(&self) -> Option<String>;
@@ -504,6 +584,8 @@ pub trait Ct: Sized + 'static {
     fn c_clone(&self) -> Option<Box<dyn Inst>>;
     /// typed clone (None if the type is not `Clone`)
     fn clone_self(&self) -> Option<Self>;
+    /// `self.clone_from(src)`; false if the type is not `Clone`
+    fn c_clone_from(&mut self, src: &Self) -> bool;
     fn c_debug(&self) -> Option<String>;
     fn c_alg() -> Option<String>;
     fn c_send() -> bool;
@@ -539,6 +621,9 @@ pub trait Inst {
     fn direct_e(&self, i: &[u8]) -> Option<Vec<u8>>;
     fn direct_d(&self, i: &[u8]) -> Option<Vec<u8>>;
     fn clone_box(&self) -> Option<Box<dyn Inst>>;
+    /// `self.clone_from(src)` when `src` is an instance of the same type and the type is `Clone`
+    fn clone_from_inst(&mut self, src: &dyn Inst) -> bool;
+    fn as_any(&self) -> &dyn std::any::Any;
     fn debug(&self) -> Option<String>;
     fn conv_targets(&self) -> &'static [&'static str];
     fn conv_ref(&self, to: &str) -> Option<Box<dyn Inst>>;
@@ -585,6 +670,15 @@ impl<T: Ct> Inst for W<T> {
     }
     fn clone_box(&self) -> Option<Box<dyn Inst>> {
         self.0.c_clone()
+    }
+    fn clone_from_inst(&mut self, src: &dyn Inst) -> bool {
+        match src.as_any().downcast_ref::<W<T>>() {
+            Some(s) => self.0.c_clone_from(&s.0),
+            None => false,
+        }
+    }
+    fn as_any(&self) -> &dyn std::any::Any {
+        self
     }
     fn debug(&self) -> Option<String> {
         self.0.c_debug()
@@ -709,6 +803,11 @@ macro_rules! ct_common {
             #[allow(unused_imports)]
             use $crate::cat::{ViaCloneT, ViaNoCloneT};
             (&$crate::cat::Probe(self)).p_clone_t()
+        }
+        fn c_clone_from(&mut self, src: &Self) -> bool {
+            #[allow(unused_imports)]
+            use $crate::cat::{ViaCloneFrom, ViaNoCloneFrom};
+            (&mut $crate::cat::ProbeMut(self, src)).p_clone_from()
         }
         fn c_debug(&self) -> Option<String> {
             #[allow(unused_imports)]
